@@ -209,6 +209,8 @@ pub struct Driver<const N: usize> {
     /// true right after a completed Dump (free_excess_resources + flushing barrier)
     pub quiescent: bool,
     pub offloaded: bool,
+    /// keys whose expected state is unknown (partially applied operation under an injected fault)
+    pub tainted: std::collections::BTreeSet<u16>,
     next_val: u64,
 }
 
@@ -264,7 +266,7 @@ pub fn builder_for(cfg: &Cfg, dir: &Path) -> Builder {
 impl<const N: usize> Driver<N> {
     pub fn new(dir: PathBuf, cfg: Cfg, hist_id: u64) -> Self {
         let model = Model::new(cfg.allow_dup);
-        Driver { dir, cfg, storage: None, model, hist_id, step: 0, stats: Stats::default(), quiescent: false, offloaded: false, next_val: 1 }
+        Driver { dir, cfg, storage: None, model, hist_id, step: 0, stats: Stats::default(), quiescent: false, offloaded: false, tainted: Default::default(), next_val: 1 }
     }
 
     pub fn key(&self, k: u16) -> ArrayKey<N> {
@@ -345,7 +347,7 @@ impl<const N: usize> Driver<N> {
                 self.stats.del_in_closed += closed_before as u64;
                 match res {
                     Err(e) => return Err(self.mm(Class::DataOp, "delete-err", format!("{} failed: {:#}", op.short(), e))),
-                    Ok(n) if n != exp => {
+                    Ok(n) if n != exp && !self.tainted.contains(k) => {
                         let rel = if n < exp { "fewer" } else { "more" };
                         return Err(self.mm(Class::DelCount, format!("delete-count/{}", rel), format!("{} returned {} blobs marked, model {}", op.short(), n, exp)));
                     }
@@ -475,6 +477,64 @@ impl<const N: usize> Driver<N> {
         }
     }
 
+    /// ids of the blob files currently in the work dir
+    pub fn dir_blob_ids(&self) -> Vec<usize> {
+        let mut v = Vec::new();
+        if let Ok(rd) = std::fs::read_dir(&self.dir) {
+            for e in rd.flatten() {
+                let p = e.path();
+                if p.is_file() && p.extension().and_then(|x| x.to_str()) == Some("blob") {
+                    if let Some(id) = crate::tap::blob_id_of(&p) {
+                        v.push(id);
+                    }
+                }
+            }
+        }
+        v.sort();
+        v
+    }
+
+    /// id of the blob that is active in the real storage, observed through the I/O tap: an explicit
+    /// fsyncdata() syncs exactly the active blob's file (the tap must be armed for `self.dir`)
+    pub async fn probe_active_id(&mut self) -> Option<usize> {
+        if !self.st().has_active_blob().await {
+            return None;
+        }
+        let before = pearl::verif::tap::count(&self.dir);
+        let _ = self.st().fsyncdata().await;
+        let ev = pearl::verif::tap::snapshot(&self.dir);
+        ev.iter()
+            .skip(before)
+            .filter(|e| e.kind == pearl::verif::tap::Kind::Sync)
+            .filter_map(|e| crate::tap::blob_id_of(&e.path))
+            .last()
+    }
+
+    /// After a call failed under an injected fault the model does not know the placement: re-read it
+    /// from the storage (ids of closed blobs, the active blob's id through the tap). Model blobs
+    /// that hold acknowledged records stay in the model even if the storage lost them (a loss then
+    /// shows up as a read mismatch); model blobs without records and without a file are dropped.
+    pub async fn resync_lifecycle(&mut self) {
+        let det = self.st().records_count_detailed().await;
+        let active = self.probe_active_id().await;
+        let n_closed = if active.is_some() { det.len().saturating_sub(1) } else { det.len() };
+        let closed: Vec<usize> = det.iter().take(n_closed).map(|d| d.0).collect();
+        let on_disk = self.dir_blob_ids();
+        let phantom: Vec<usize> = self.model.blobs.iter().filter(|(id, recs)| recs.is_empty() && !on_disk.contains(id)).map(|(id, _)| *id).collect();
+        for id in phantom {
+            self.model.blobs.remove(&id);
+        }
+        for id in closed.iter().chain(active.iter()) {
+            if !self.model.blobs.contains_key(id) {
+                self.model.blobs.insert(*id, Vec::new());
+                self.model.ids_ever.insert(*id);
+            }
+        }
+        self.model.closed = closed;
+        self.model.active = active;
+        self.model.next_id = self.st().next_blob_id();
+    }
+
     /// true if the current model state is "non-trivial" for C01 / C02 rules
     pub fn nontrivial_c01(&self) -> bool {
         for k in self.model.keys() {
@@ -516,6 +576,9 @@ impl<const N: usize> Driver<N> {
         self.stats.abstract_states.insert(st);
         let n = self.cfg.n_keys;
         for k in 0..(n + 2) {
+            if self.tainted.contains(&k) {
+                continue;
+            }
             if k < n {
                 self.note_key_shape(k);
             }
